@@ -115,8 +115,10 @@ class BinaryData:
 
     def close_and_add_segment(self, fjm_writer: Writer) -> None:
         if self.next_wflip_address == self.first_address:
-            # an empty segment adds nothing, but its address must still be an address (its labels point there)
-            assert_address_in_memory(self.memory_width, self.first_address)
+            # an empty segment adds nothing, but its address must still be an address (its labels point there);
+            #  the end of the memory itself is fine - that is where a segment that fills the memory up to its top ends.
+            if self.first_address != (1 << self.memory_width):
+                assert_address_in_memory(self.memory_width, self.first_address)
             return
 
         add_segment_to_fjm(
